@@ -75,29 +75,36 @@ def spe (a : Args) : Nat :=
 /-- updates per epoch: number of (possibly short) batches an epoch is cut into -/
 def upe (a : Args) : Nat := (spe a + a.B - 1) / a.B
 
-/-- constructor: every assert on the geometry + "infer full start checkpoint".
-    The checkpoint is derived with the same samples-per-epoch / updates-per-epoch as the loop uses. -/
+/-- the constructor's asserts on the geometry -/
+def geomOk (a : Args) : Bool :=
+  a.B != 0 && decide (a.B ≤ a.N) &&
+  (match a.dropLastBS with
+   | some d => a.dropLast && d % a.B == 0 && decide (a.B ≤ d) && decide (d ≤ a.N)
+   | none => true)
+
+/-- the constructor's asserts on the interleaved configs -/
+def cfgOk (c : Config) : Bool :=
+  !(c.everyNEpochs.isNone && c.everyNUpdates.isNone && c.everyNSamples.isNone)
+  && c.everyNEpochs != some 0 && c.everyNUpdates != some 0 && c.everyNSamples != some 0
+  && c.batchSize != some 0
+
+/-- "infer full start checkpoint from one of epoch/update/sample": derived with the same
+    samples-per-epoch / updates-per-epoch as the loop uses -/
+def startOf (a : Args) (s : StartArg) : Except CtorErr Start :=
+  match s with
+  | .none => .ok ⟨0, 0, 0⟩
+  | .epoch e => .ok ⟨e, upe a * e, spe a * e⟩
+  | .update u =>
+    if u % (upe a) != 0 || !a.dropLast then .error .notImplemented
+    else .ok ⟨u / upe a, u, u / upe a * spe a⟩
+  | .sample s =>
+    if s % a.B != 0 then .error .assertion
+    else if (s / a.B) % (upe a) != 0 || !a.dropLast then .error .notImplemented
+    else .ok ⟨(s / a.B) / upe a, s / a.B, s⟩
+
+/-- constructor: every assert + checkpoint inference -/
 def ctor (a : Args) (s : StartArg) : Except CtorErr Start :=
-  if a.B = 0 then .error .assertion
-  else if a.N < a.B then .error .assertion
-  else if (match a.dropLastBS with
-           | some d => !(a.dropLast && d % a.B == 0 && decide (a.B ≤ d) && decide (d ≤ a.N))
-           | none => false) then .error .assertion
-  else if a.configs.any (fun c =>
-      (c.everyNEpochs.isNone && c.everyNUpdates.isNone && c.everyNSamples.isNone)
-      || c.everyNEpochs == some 0 || c.everyNUpdates == some 0 || c.everyNSamples == some 0
-      || c.batchSize == some 0) then .error .assertion
-  else
-    match s with
-    | .none => .ok ⟨0, 0, 0⟩
-    | .epoch e => .ok ⟨e, upe a * e, spe a * e⟩
-    | .update u =>
-      if u % (upe a) != 0 || !a.dropLast then .error .notImplemented
-      else .ok ⟨u / upe a, u, u / upe a * spe a⟩
-    | .sample s =>
-      if s % a.B != 0 then .error .assertion
-      else if (s / a.B) % (upe a) != 0 || !a.dropLast then .error .notImplemented
-      else .ok ⟨(s / a.B) / upe a, s / a.B, s⟩
+  if geomOk a && a.configs.all cfgOk then startOf a s else .error .assertion
 
 /-- python `config.batch_size or self.batch_size` -/
 def sideBS (a : Args) (c : Config) : Nat :=
